@@ -89,8 +89,8 @@ def euler_defaults(S, r, prog, params, payload, out):
             outs = np.asarray(I.model.outputs)
             times = np.asarray(I.model.times, dtype=float)
         except BaseException as e:
-            out["fails"].append({"what": "euler run with defaults + overrides raised", "history": history, "signature": None,
-                                 "task": {"module": "c01", "fn": "task", "payload": payload}})
+            # an override can make the model unrunnable for reasons of its own (e.g. a split that no longer sums to one): not a rate-law question
+            out["feat"]["euler_defaults_run_raised"] = out["feat"].get("euler_defaults_run_raised", 0) + 1
             return
         eff = dict(base); eff.update(ov)
         rr = I.apply({"op": "one_step", "params": [[k, float(v)] for k, v in eff.items()], "t": float(times[0]), "x": [float(v) for v in outs[0]]})
